@@ -309,7 +309,7 @@ pub fn run(eng: &mut Engine) {
         PartCfg::new(
             "workloads",
             "up to 3 priority queues (keys 0..5) x multiplex_files 0..3 x interleave 1..4 x 1-6 objects (0 to several blocks, 1-2 transfers, 5 schemes) added before the first read or after n object packets, both publish modes; per packet: strict priority, multiplex bound, round-robin; per transfer: interleave window and increasing block order; per queue: FIFO of first starts; non-trivial = >=2 queues busy at once or >=2 objects multiplexed or >=2 blocks interleaved; distinct by case",
-            tier.pick(30_000, 600_000),
+            tier.pick(100_000, 2_000_000),
         ),
         move || case_strategy(tier, 6),
         move |c| run_case(c, &known),
